@@ -138,6 +138,13 @@ func needParens(parent *N, side int) bool {
 		// `,` flat only in the grouping the evaluator itself uses (to the right)
 		return side == 0
 	}
+	if parent.Op == "|" && child.Op == "|" && side == 0 && pipeChainBinds(parent) {
+		// `x as $v | a | b` is `x as $v | (a | b)`: the body of a binding extends to the right as far as it can,
+		// and evaluating it once per bound value is not the same as piping all values on (`{}`, literals and `,`
+		// see one context of several nodes instead of several contexts of one). A pipe chain with a binding in
+		// it is therefore written flat only in the right-nested grouping.
+		return true
+	}
 	pl, cl := level[parent.Op], level[child.Op]
 	if cl < pl {
 		return true
@@ -146,6 +153,14 @@ func needParens(parent *N, side int) bool {
 		return false
 	}
 	return !(parent.Op == child.Op && assoc[parent.Op])
+}
+
+// pipeChainBinds: some operand of the chain of `|` that n heads is a variable binding.
+func pipeChainBinds(n *N) bool {
+	if n.K == "bin" && n.Op == "|" {
+		return pipeChainBinds(n.Kids[0]) || pipeChainBinds(n.Kids[1])
+	}
+	return n.K == "bin" && n.Op == "as"
 }
 
 // ---------------------------------------------------------------------------
